@@ -442,7 +442,7 @@ def read_ndjson(path):
 # ---------------------------------------------------------------------------------------------
 # trace validation
 
-def tlc_trace(ctx, spec, cfg, trace, timeout=900, extra_env=None, chunk=20000):
+def tlc_trace(ctx, spec, cfg, trace, timeout=900, extra_env=None, chunk=8000):
     """Validate an ndjson trace with a total, accumulating trace spec. Returns list of violation
     records (dicts with prop, pred, trace, line, sig) and per-predicate evaluation counts.
     Long traces are cut at 'reset' lines into chunks so that each TLC run stays small."""
@@ -458,7 +458,9 @@ def tlc_trace(ctx, spec, cfg, trace, timeout=900, extra_env=None, chunk=20000):
     if cur:
         chunks.append(cur)
     viol, counts, total_lines = [], {}, 0
-    for i, ch in enumerate(chunks):
+
+    def one(arg):
+        i, ch = arg
         p = os.path.join(ctx.work, "chunk-%s-%d.ndjson" % (os.path.basename(trace), i))
         with open(p, "w") as fh:
             fh.write("\n".join(ch) + "\n")
@@ -466,6 +468,15 @@ def tlc_trace(ctx, spec, cfg, trace, timeout=900, extra_env=None, chunk=20000):
         if extra_env:
             env.update(extra_env)
         res = run_tlc(ctx, spec, cfg, workers=1, extra_env=env, timeout=timeout, quiet_ok=True)
+        os.remove(p)
+        return i, ch, res
+
+    # chunks are independent (every chunk starts at a 'reset' line): validate them side by side
+    from concurrent.futures import ThreadPoolExecutor
+    par = max(1, min(len(chunks), int(os.environ.get("VERIF_TRACE_PAR", "6"))))
+    with ThreadPoolExecutor(par) as ex:
+        results = list(ex.map(one, list(enumerate(chunks))))
+    for i, ch, res in results:
         rep = res.tag("VERIF_VIOL")
         if res.rc != 0 or not rep:
             raise NoVerdict("trace validation %s/%s did not complete (rc=%s):\n%s" %
@@ -482,7 +493,6 @@ def tlc_trace(ctx, spec, cfg, trace, timeout=900, extra_env=None, chunk=20000):
             for k, n in (c[0] or {}).items():
                 counts[k] = counts.get(k, 0) + n
         total_lines += len(ch)
-        os.remove(p)
     ctx.cov["trace_lines_validated"] = ctx.cov.get("trace_lines_validated", 0) + total_lines
     for k, n in counts.items():
         ctx.cov["predicates"][k] = ctx.cov["predicates"].get(k, 0) + n
